@@ -1047,9 +1047,17 @@ def payload_compare(got, ref, exact: bool) -> dict:
     reference array -- a JSON document that stores a nested list carries no dtype (complex64 -> complex128)."""
     out = {"same": True, "where": None, "detail": None, "n": len(ref)}
     if [p for p, _ in got] != [p for p, _ in ref]:
-        # the walk goes through _json_dict_ trees: equal values of one class have the same places
-        out.update(same=False, where="structure", detail=f"{len(got)} payloads against {len(ref)}")
-        return out
+        if exact:
+            # the walk goes through _json_dict_ trees: a pickle or a copy has its payloads in the same places
+            out.update(same=False, where="structure", detail=f"{len(got)} payloads against {len(ref)}")
+            return out
+        # JSON: a class may keep what it was given as an array and read a plain list back (a field documented
+        # as list[float], e.g. GoogleNoiseProperties.readout_errors); only places that hold a payload on both
+        # sides are compared
+        gd = dict(got)
+        pairs = [((p, gd[p]), (p, r)) for p, r in ref if p in gd]
+        got, ref = [a for a, _ in pairs], [b for _, b in pairs]
+        out["n"] = len(ref)
     for (path, g), (_, r) in zip(got, ref):
         if g[0] != r[0]:
             out.update(same=False, where=path, detail=f"{r[0]} -> {g[0]}")
